@@ -73,7 +73,8 @@ def run(pid, tier):
     cov = {}
     n_mig, rec_mig, sample_mig = migrate_stage(v, wd, tier, cov)
     bindir = build_harness("preemptive", bins=["preempt"])
-    mc_runs("Monitor", [("MC_Monitor.cfg", None), ("MC_Monitor_unsync_set.cfg", "NotCorrupt")], tier, cov)
+    mc_runs("Monitor", [("MC_Monitor.cfg", None), ("MC_Monitor_unsync_set.cfg", "NotCorrupt"),
+                        ("MC_Monitor_handler_preempts_in_monitor.cfg", "NoSelfDeadlock")], tier, cov)
     thorough = tier == "thorough"
     scs = []
     reps = 4 if thorough else 1
@@ -83,6 +84,9 @@ def run(pid, tier):
                 scs.append({"threads": threads, "shorts": 0, "busy": busy, "stress": False, "src": "grid"})
         # the busy coroutine is stolen by another scheduling thread after its first slice and must be preempted there too
         scs.append({"threads": 2, "shorts": 0, "busy": "running", "steal": True, "busy_ms": 90, "stress": False, "src": "stolen-after-first-slice"})
+        # a signal delivered while a coroutine that returns from a system call is inside the monitor's listener, holding
+        # the blocker's lock, on its own stack (Monitor!DeliverInside; delivered by the driver at the pause point)
+        scs.append({"threads": 1, "shorts": 0, "busy": "syscall", "storm": 20, "stress": False, "src": "signal-inside-monitor-listener"})
         # a late SIGURG while the coroutine is already inside its system call (delivered by the driver)
         for threads in (1, 4):
             scs.append({"threads": threads, "shorts": 0, "busy": "syscall", "sig_self": True, "stress": False, "src": "late-signal-in-syscall"})
